@@ -6,8 +6,33 @@ RULE = ("histories grown by the real planner (plan_next_migration + revision fil
         "directions; non-trivial = plan with >=2 actions of >=2 kinds or >=2 tables, distinct by hash of (models, history)")
 
 
+def theorem_coverage(chk, res, rows):
+    """share of the sampled inputs that fall under a PROVED class theorem (C01_change / C01_local ...), as opposed to being
+    vouched for by the oracle only; also a consistency test: hypothesis true must imply the oracle passed"""
+    import vflib
+    vflib.build_layer("m1", targets=["Corr/Hyp.vo", "Corr/Known2.vo"])
+    cov = {}
+    inconsistent = []
+    for fn in ("hyp_C01_first", "hyp_C01_step", "hyp_C01_grow", "hyp_C01_change", "hyp_C01_local"):
+        vals = m1run.eval_on_all_cases(res, fn)
+        if vals is None:
+            cov[fn] = "not evaluated"
+            continue
+        cov[fn] = sum(1 for v in vals.values() if v)
+        for i, v in vals.items():
+            o = rows[i].get("oracles", {}).get("c01")
+            if v and o is not None and not o.get("ok", True):
+                inconsistent.append((fn, i))
+    judged = sum(1 for r in rows if r.get("oracles", {}).get("c01") is not None)
+    chk.cov["theorem_coverage"]["cases_judged_by_oracle"] = judged
+    chk.cov["theorem_coverage"]["cases_under_proved_class_theorem"] = cov
+    for fn, i in inconsistent[:2]:
+        # a proved theorem says the gap closes, the implementation says it does not: model or tie is wrong, or the code changed
+        chk.violation(vflib.write_replay("C01", "theorem:%s-contradicted" % fn, {"input": m1run.input_of(rows[i]), "oracle": rows[i]["oracles"]["c01"]}))
+
+
 def run(tier, seed):
-    return m1run.m1_check("C01", tier, seed, subchecks=[1, 3, 4, 7, 8, 10], oracle_key="c01", known_ids=[], rule=RULE,
+    return m1run.m1_check("C01", tier, seed, subchecks=[1, 3, 4, 7, 8, 10], oracle_key="c01", known_ids=[], rule=RULE, extra=theorem_coverage,
                           assumptions=["tie: K-norm, K-apply(replay), K-diff(plan_next), K-fill evaluated inside Coq on every case",
                                        "histories are grown in memory by the real planner; the CLI path (revision writes, loader reads) is C12/C13",
                                        "C01_full_statement is refuted (C01_refuted); outside the classifier known_shrunk_constraint the claim rests on the oracle run, not yet on a theorem"])
